@@ -385,6 +385,52 @@ def rmq_windows(prog: Program) -> RuleResult:
     else:
         res.fail(construct, f"the query reads windows starting at {got} of level(s) {[str(l) for l, _p, _n in qreads]}; expected starts {wants} at level {depth_name}: "
                  "the second window must end exactly at the requested stop", mod, call)
+    # ---- number of levels: decision table over lengths 1..64 (the analyser's own arithmetic, see arith.py)
+    from ..arith import EvalError, Unsupported, evaluate
+
+    construct = f"{RMQ}:RangeMinQuery.__init__/level-count"
+    depth_call = next(
+        (st.value for st in walk_no_nested(call) if isinstance(st, ast.Assign) and dotted(st.targets[0]) == depth_name),
+        None,
+    )
+    upper = oargs[-1] if oargs else None
+    lv_expr = upper
+    hops = 0
+    while isinstance(lv_expr, ast.Name) and hops < 4:
+        hops += 1
+        defs = [st for st in walk_no_nested(init) if isinstance(st, ast.Assign) and any(dotted(t) == lv_expr.id for t in st.targets)]
+        if len(defs) != 1:
+            break
+        if isinstance(defs[0].value, ast.Call) and dotted(defs[0].value.func) == "len":
+            break
+        lv_expr = defs[0].value
+    len_names = [dotted(t) for st in walk_no_nested(init) if isinstance(st, ast.Assign) and isinstance(st.value, ast.Call) and dotted(st.value.func) == "len" for t in st.targets]
+    funcs = {q: f for q, f in prog.defs(RMQ).items() if isinstance(f, ast.FunctionDef) and "." not in q}
+    if depth_call is None or lv_expr is None or not len_names:
+        raise AnalysisError("RangeMinQuery: level count / depth expression not found")
+    witness = None
+    try:
+        for n_ in range(1, 65):
+            env = {nm: n_ for nm in len_names}
+            try:
+                have = evaluate(lv_expr, env, funcs)
+            except EvalError as err:
+                witness = (n_, f"the level count `{short(lv_expr)}` fails ({err})")
+                break
+            import copy as _copy
+
+            dc = _copy.deepcopy(depth_call)
+            dc.args = [ast.Constant(value=n_)]
+            need = evaluate(dc, {}, funcs) + 1
+            if have < need or have < 1:
+                witness = (n_, f"the table has {have} level(s) but a query over the whole data uses level {need - 1}")
+                break
+    except Unsupported as err:
+        raise AnalysisError(f"{construct}: level arithmetic not understood ({err})")
+    if witness:
+        res.fail(construct, f"for {witness[0]} element(s) {witness[1]}: `levels = {short(lv_expr)}` does not cover `depth = {short(depth_call)}`", mod, init)
+    else:
+        res.ok(construct, f"for every length 1..64: {short(lv_expr)} >= {short(depth_call)} + 1 with the range as long as the data")
     return res
 
 
